@@ -31,7 +31,7 @@ func c06Base() model.Frame {
 		{Name: "b", Kind: model.Bool, Cells: []model.Cell{model.B(true), model.B(false), model.B(false), model.B(true)}},
 		// "ı" upper-cases to a shorter, "ɐ" to a longer UTF-8 sequence
 		{Name: "s", Kind: model.String, Cells: []model.Cell{model.S("aıb"), N, model.S(""), model.S("ɐx")}},
-		{Name: "e", Kind: model.Enum, EnumVals: []string{"lo", "hi", "ɐ"}, Cells: []model.Cell{model.S("hi"), N, model.S("lo"), model.S("ɐ")}},
+		{Name: "e", Kind: model.Enum, EnumVals: []string{"lo", "hi", "ɐ"}, Cells: []model.Cell{model.S("hi"), model.S("lo"), N, model.S("ɐ")}},
 	}}
 }
 
@@ -112,6 +112,11 @@ func c06Alphabet(small bool) []model.Instr {
 			}
 		}
 	}
+	for _, src := range []string{"s", "e"} {
+		out = append(out, model.Instr{Fn: "fn1:same", Src1: src, Dst: "n1"})
+		out = append(out, model.Instr{Fn: "fn2:pass", Src1: src, Src2: src, Dst: "n2"})
+	}
+	out = append(out, model.Instr{Fn: "fn2:pass", Src1: "s", Src2: "n1", Dst: "n2"}, model.Instr{Fn: "fn2:pass", Src1: "n1", Src2: "s", Dst: "s"})
 	for _, pair := range [][2]string{{"i", "i"}, {"i", "n1"}, {"n1", "i"}, {"f", "f"}, {"b", "b"}, {"s", "s"}, {"e", "e"}, {"s", "e"}, {"i", "f"}} {
 		for _, dst := range []string{"n1", pair[0]} {
 			if small && dst != "n1" {
@@ -388,6 +393,7 @@ func c06Run(ctx *core.Ctx) {
 func init() {
 	core.Register(&core.Check{
 		ID:    "C06",
+		Setup: func() { c06Variants() },
 		Level: "model_checking",
 		Rule: "case = (frame variant: 7 index shapes + result of Aggregate, Select, Copy; instruction list; optional FilteredApply clause). All instruction lists of length <= 2 over a ~150-instruction alphabet " +
 			"(constants of every type incl. nil string, column copies, zero/one/two-argument functions of every supported signature per source type, built-ins, sources/destinations overlapping, later instructions reading earlier destinations), " +
